@@ -629,8 +629,22 @@ def bridge_table(ctx: Ctx, rule: str) -> None:
             dnames = set()
             for d_ in domain:
                 dnames |= norm.names_in(d_)
-            if "self" not in dnames or "bridged_nodes" not in dom:
+            # whose bridge lists feed the adopters: self's own, or a work list walked transitively (a local name popped from it)
+            owners = set()
+            for d_ in domain:
+                try:
+                    tree_ = ast.parse(d_, mode="eval")
+                except SyntaxError:
+                    continue
+                for x_ in ast.walk(tree_):
+                    if isinstance(x_, ast.Attribute) and x_.attr in ("_bridged_nodes", "bridged_nodes"):
+                        owners.add(ast.unparse(x_.value))
+            transitive = any(o not in ("self", other) for o in owners)
+            if "bridged_nodes" not in dom or not ({"self", other} & dnames if transitive else "self" in dnames):
                 why = f"the nodes adopting the registers are not self and the nodes bridged with it: {dom[:160]}"
+            elif "self" not in owners and not transitive:
+                why = (f"the adopters are taken from the bridge list of the other node only ({dom[:120]}): the nodes bridged with self earlier keep their previous "
+                       "registers, so equivalent tests end up in groups with separate visit bookkeeping (the order of bridging decides who shares with whom)")
     ctx.record(rule + "g", "TABLE", fref, "the registers of the bridged node are adopted by self AND by every node already bridged with self (sharing is transitive whatever the bridging order)",
                not why, {"stores": len(sites)}, why)
     found = list(attribute_stores(ctx.repo, "_bridged_nodes", ("cartgraph/", "plugins/", "intertest_setup.py")))
